@@ -44,6 +44,7 @@ def run(R, env):
         R.ob("C15.R2", "must-post-table:" + s, s in MUST_POST, "%s changes the staked/LST totals but is not in the reviewed list of rate-posting handlers %s" % (s, MUST_POST), fn=sites[s].body.key)
     n_post = 0
     poster_bodies = set()
+    envelope_bodies = set()
     for s in MUST_POST:
         if s not in sites:
             R.ob("C15.R2", s + ":dispatched", False, "no handler", fn="staking::contract::execute")
@@ -97,7 +98,13 @@ def run(R, env):
             base, path_ = field_path(con[1] if con is not None and con[0] == "payload" else (con or ("none",)))
             good = good and path_[-2:] == ["protocol_chain_config", "oracle_address"]
             good = good and funds is not None and funds[0] == "call" and funds[1] in ("std::vec::Vec::new", "vec!") and not funds[2]
-            good = good and msg is not None and any(s_[0] == "agg" and s_[1].endswith("oracle::Oracle") for s_ in subterms(msg))
+            from engine.analysis import forms as _f15
+            # (the json may be built from a constructor helper: `serde_json::to_vec(&Oracle::post_rates(denom, &rates))`)
+            msg_forms = ([msg] + (list(_f15(prog, msg, 2)) if any(s_[0] == "call" and prog.body(s_[1]) is not None for s_ in subterms(msg)) else [])) if msg is not None else []
+            carries = any(s_[0] == "agg" and s_[1].endswith("oracle::Oracle") for f_ in msg_forms for s_ in subterms(f_))
+            good = good and carries
+            if carries:
+                envelope_bodies.add(c.body.key)
             R.ob("C15.R3", s + ":envelope", good, "MsgExecuteContract{sender: %s, contract: %s, funds: %s}; expected {contract address, configured oracle address, []} carrying the PostRates json" % (fmt(snd or ("none",))[:60], fmt(con or ("none",))[:100], fmt(funds or ("none",))[:40]), loc=c.body.loc(bi, si), fn=hk)
     R.floor("C15.R2", "poster sites", n_post, 4)
 
@@ -121,6 +128,10 @@ def run(R, env):
     R.floor("C15.R3", "StateResponse constructions", n_q, 1)
 
     # ---------------- R4 optional oracle
+    # the poster is the function that builds the envelope (where the oracle address is read); the PostRates value it
+    # carries may come from a constructor helper of its own
+    if envelope_bodies:
+        poster_bodies = set(envelope_bodies)
     for pk in sorted(poster_bodies):
         pb = prog.body(pk)
         pc = Ctx(pb)
